@@ -516,7 +516,7 @@ theorem parseOne_sim (cfg : Cfg) (fs : FS) (n : Nat) :
                 have := (List.Perm.append hperm1 hv2).trans
                   (perm_shuffle (loads.flatMap (lineDiags cfg fs stack file spelled)) (diagsFrom cfg fs st.reg new1) [] _)
                 refine this.trans ?_
-                simp only [List.append_nil, List.nil_append]
+                simp only [List.append_nil]
                 rw [← List.append_assoc, ← List.append_assoc]
                 exact List.Perm.append_right _ List.perm_append_comm
             · rw [defs_file] at hk
@@ -528,5 +528,233 @@ theorem parseOne_sim (cfg : Cfg) (fs : FS) (n : Nat) :
                 Or.inr ⟨by rw [hkeys]; exact hk, s.file, s.pos, rfl⟩⟩
           · rw [herr]
             exact PostV.of_raised new1 [.file file spelled stack loads contents] (by simp [hout1]) hnd1 f' p'
+
+/-! ### whole programs -/
+
+/-- The root call of the front end. Either no name is registered twice, the call returns normally, its diagnostics
+    are a permutation of `programDiags` and the final registry is the built-ins plus the definitions of all visits in
+    order; or some name is registered twice and the call is aborted by a `TypeResolvingException`. -/
+theorem front_run_visits (cfg : Cfg) (fs : FS) (builtins : Registry) (root : APath)
+    (hb : (builtins.map (·.key)).Nodup) (hgood : GoodV cfg (rootVisits cfg fs root)) :
+    ((programKeys builtins (rootVisits cfg fs root)).Nodup ∧
+        ∃ res st, parseOne cfg fs (fs.files.length + 2) [] (normPath root) root { reg := builtins } = .ok (res, st)
+          ∧ res.errors.Perm (programDiags cfg fs builtins root)
+          ∧ st.reg = builtins ++ (rootVisits cfg fs root).flatMap visitDefs)
+      ∨ (¬ (programKeys builtins (rootVisits cfg fs root)).Nodup ∧
+        ∃ f p, parseOne cfg fs (fs.files.length + 2) [] (normPath root) root { reg := builtins }
+          = .error (.raised "TypeResolvingException" f p)) := by
+  have h := parseOne_sim cfg fs (fs.files.length + 2) [] (normPath root) root { reg := builtins }
+    ([normPath root], []) (Visited.root root) hb (fun f p hne => absurd rfl hne) hgood
+  rcases h with h | ⟨new, hout, h⟩
+  · exfalso
+    refine parseOne_fuel_sufficient cfg fs _ _ _ _ _ ?_ h
+    have := remaining_le fs ([] : List APath)
+    simp only; omega
+  · have hnew : new = rootVisits cfg fs root := by
+      have : rootVisits cfg fs root = [] ++ new := hout
+      rw [this]; rfl
+    subst hnew
+    rcases h with ⟨hnd, res, st', errs, hok, _, hreg, _, herr, hperm⟩ | ⟨hnd, f, p, herr⟩
+    · refine Or.inl ⟨hnd, res, st', hok, ?_, hreg⟩
+      rw [herr, List.nil_append]
+      simpa [programDiags] using hperm
+    · exact Or.inr ⟨hnd, f, p, herr⟩
+
+/-- **The multi-file front end reports exactly the whole-program specification — import diagnostics included.**
+    Let `visits = rootVisits cfg fs root` be the import tree below `root` (`Front/SpecProgram.lean`). Assume
+    * the built-ins have pairwise distinct names;
+    * (`GoodV`) everything the search *enters* — the root, and the target of every `@import` line that is followed — is
+      IDL text inside the grammar (lexes and parses) or a file that is not valid UTF-8 (no `broken` visit); the IDL
+      files entered have pairwise distinct names (`showPath`: the model keys its resolution map by file name and
+      position); within each of them the type references are at pairwise distinct positions (H4 of
+      `Props/C05Program.lean`);
+    * no two registrations collide: the names of the built-ins followed by the names every visit registers, in visit
+      order (`programKeys`: an IDL file's declarations when it is finished, an external type file's definitions at the
+      `@extern` line that loads it), are pairwise distinct.
+
+    Nothing is assumed about the load lines: they may find no file, refer to the file itself, close a cycle of any
+    length, import a file again (diamonds), or be `@extern` lines for valid, undecodable or invalid external type
+    files. Then `front` neither aborts nor runs out of fuel, and the diagnostics `ds` it reports (`.ok` iff there are
+    none) are a permutation of `programDiags`: every diagnostic is reported exactly as often as the specification
+    lists it, with class, rule, file and position, and nothing else is reported. -/
+theorem front_eq_programDiags (cfg : Cfg) (fs : FS) (builtins : Registry) (root : APath)
+    (hb : (builtins.map (·.key)).Nodup) (hgood : GoodV cfg (rootVisits cfg fs root))
+    (hdup : (programKeys builtins (rootVisits cfg fs root)).Nodup) :
+    ∃ ds, front cfg fs builtins root = (if ds = [] then Outcome.ok else Outcome.diags ds)
+      ∧ ds.Perm (programDiags cfg fs builtins root) := by
+  rcases front_run_visits cfg fs builtins root hb hgood with ⟨_, res, st, hok, hperm, _⟩ | ⟨hnd, _⟩
+  · refine ⟨res.errors, ?_, hperm⟩
+    unfold front
+    rw [hok]
+    exact outcome_of_errors res.errors
+  · exact absurd hdup hnd
+
+/-- **Duplicates (C04).** Under the other hypotheses of `front_eq_programDiags`: if the names registered in visit
+    order are *not* pairwise distinct — two declarations of one file, of two files, a declaration and an external
+    type, a built-in … — the front end is aborted by a `TypeResolvingException`; and conversely. -/
+theorem front_duplicate_raised (cfg : Cfg) (fs : FS) (builtins : Registry) (root : APath)
+    (hb : (builtins.map (·.key)).Nodup) (hgood : GoodV cfg (rootVisits cfg fs root)) :
+    ¬ (programKeys builtins (rootVisits cfg fs root)).Nodup ↔
+      ∃ f p, front cfg fs builtins root = .abort (.raised "TypeResolvingException" f p) := by
+  constructor
+  · intro hdup
+    rcases front_run_visits cfg fs builtins root hb hgood with ⟨hnd, _⟩ | ⟨_, f, p, herr⟩
+    · exact absurd hnd hdup
+    · exact ⟨f, p, by unfold front; rw [herr]⟩
+  · rintro ⟨f, p, hfront⟩ hdup
+    obtain ⟨ds, hds, _⟩ := front_eq_programDiags cfg fs builtins root hb hgood hdup
+    rw [hds] at hfront
+    split at hfront <;> cases hfront
+
+/-- the final registry of a successful run: built-ins, then what each visit registers, in visit order -/
+theorem front_final_registry_visits (cfg : Cfg) (fs : FS) (builtins : Registry) (root : APath)
+    (hb : (builtins.map (·.key)).Nodup) (hgood : GoodV cfg (rootVisits cfg fs root))
+    (hdup : (programKeys builtins (rootVisits cfg fs root)).Nodup) :
+    builtins ++ (frontWithBindings cfg fs builtins root).2.2.1 = builtins ++ (rootVisits cfg fs root).flatMap visitDefs := by
+  rcases front_run_visits cfg fs builtins root hb hgood with ⟨_, res, st, hok, _, hreg⟩ | ⟨hnd, _⟩
+  · unfold frontWithBindings
+    rw [hok]
+    show builtins ++ st.reg.drop builtins.length = _
+    rw [hreg, List.drop_left]
+  · exact absurd hdup hnd
+
+/-- membership form of `front_eq_programDiags` -/
+theorem front_mem_programDiags (cfg : Cfg) (fs : FS) (builtins : Registry) (root : APath)
+    (hb : (builtins.map (·.key)).Nodup) (hgood : GoodV cfg (rootVisits cfg fs root))
+    (hdup : (programKeys builtins (rootVisits cfg fs root)).Nodup) :
+    ∃ ds, front cfg fs builtins root = (if ds = [] then Outcome.ok else Outcome.diags ds)
+      ∧ ∀ x, x ∈ ds ↔ x ∈ programDiags cfg fs builtins root := by
+  obtain ⟨ds, hfront, hperm⟩ := front_eq_programDiags cfg fs builtins root hb hgood hdup
+  exact ⟨ds, hfront, fun x => hperm.mem_iff⟩
+
+/-- **Accepted iff the specification lists nothing.** -/
+theorem front_ok_iff_programDiags (cfg : Cfg) (fs : FS) (builtins : Registry) (root : APath)
+    (hb : (builtins.map (·.key)).Nodup) (hgood : GoodV cfg (rootVisits cfg fs root))
+    (hdup : (programKeys builtins (rootVisits cfg fs root)).Nodup) :
+    front cfg fs builtins root = .ok ↔ programDiags cfg fs builtins root = [] := by
+  obtain ⟨ds, hfront, hperm⟩ := front_eq_programDiags cfg fs builtins root hb hgood hdup
+  rw [hfront]
+  constructor
+  · intro h
+    by_cases hds : ds = []
+    · subst hds; exact hperm.symm.eq_nil
+    · rw [if_neg hds] at h; cases h
+  · intro h
+    rw [h] at hperm
+    rw [if_pos hperm.eq_nil]
+
+instance (cfg : Cfg) (v : Visit) : Decidable (VisitOk cfg v) := by
+  cases v <;> unfold VisitOk <;> infer_instance
+
+instance (cfg : Cfg) (vs : List Visit) : Decidable (GoodV cfg vs) := by
+  unfold GoodV; infer_instance
+
+/-- all hypotheses of `front_eq_programDiags` except the distinctness of the registered names, as one computable check -/
+def visitsChecks (cfg : Cfg) (fs : FS) (builtins : Registry) (root : APath) : Bool :=
+  decide ((builtins.map (·.key)).Nodup) && decide (GoodV cfg (rootVisits cfg fs root))
+
+/-! ### non-vacuity
+
+Compiled evaluation with `#guard` — tests, not proofs (kernel reduction of the path-splitting functions and of the
+lexer is too slow for `decide`, as in `Props/C16.lean`). For each file system: the hypotheses hold (`visitsChecks`,
+and `programKeys … .Nodup` where the theorem needs it), and the diagnostics of `front` are a permutation of
+`programDiags` — with the import-related diagnostics present on both sides. -/
+
+namespace C16ProgramExamples
+open C05ProgramExamples
+
+def nodupKeys (cfg : Cfg) (fs : FS) (builtins : Registry) (root : APath) : Bool :=
+  decide ((programKeys builtins (rootVisits cfg fs root)).Nodup)
+
+def agreeV (cfg : Cfg) (fs : FS) (builtins : Registry) (root : APath) : Bool :=
+  match diagsOf (front cfg fs builtins root) with
+  | some ds => ds.isPerm (programDiags cfg fs builtins root)
+  | none => false
+
+def shape (ds : List Diag) : List (String × String × Nat × Nat) := ds.map (fun d => (d.rule, d.file, d.pos.sl, d.pos.sc))
+
+def frontShape (cfg : Cfg) (fs : FS) (builtins : Registry) (root : APath) : Option (List (String × String × Nat × Nat)) :=
+  (diagsOf (front cfg fs builtins root)).map shape
+
+-- a cycle that does not go through the root: `a` imports `b`, `b` imports `c`, `c` imports `b` (being imported: reported
+-- in `c` at the directive); rule violations in `c` (`tb` is not yet declared when `c` is finished) and in `a`
+def exCycleInner : FS := fsOf [("a", "@import \"b\"\nta = record { x: tb; y: nope; }"), ("b", "@import \"c\"\ntb = enum { k; }"),
+  ("c", "@import \"b\"\ntc = record { z: tb; }")]
+#guard visitsChecks cfg0 exCycleInner bi ["w", "a"] && nodupKeys cfg0 exCycleInner bi ["w", "a"]
+#guard agreeV cfg0 exCycleInner bi ["w", "a"]
+#guard shape (programDiags cfg0 exCycleInner bi ["w", "a"])
+  == [("circular-import", "/w/c", 1, 0), ("unknown-type", "/w/c", 2, 17), ("unknown-type", "/w/a", 2, 24)]
+#guard frontShape cfg0 exCycleInner bi ["w", "a"] == some (shape (programDiags cfg0 exCycleInner bi ["w", "a"]))
+
+-- a missing leaf (reported in the importing file `b`, at the path token) and two self imports of the root: spelled
+-- exactly like the root (an absolute path; reported at the path token) and spelled relatively (the implementation's
+-- relative `Path` is not equal to the file's own: reported as an import of a file being imported, at the directive);
+-- the root imports `b` twice (nothing the second time)
+def exMissingLeaf : FS := fsOf [("a", "@import \"b\"\n@import \"/w/a\"\n@import \"b\"\n@import \"a\"\nta = record { x: tb; }"),
+  ("b", "@import \"nope\"\ntb = enum { k; }")]
+#guard visitsChecks cfg0 exMissingLeaf bi ["w", "a"] && nodupKeys cfg0 exMissingLeaf bi ["w", "a"]
+#guard agreeV cfg0 exMissingLeaf bi ["w", "a"]
+#guard shape (programDiags cfg0 exMissingLeaf bi ["w", "a"])
+  == [("missing-file", "/w/b", 1, 8), ("circular-import", "/w/a", 2, 8), ("circular-import", "/w/a", 4, 0)]
+
+-- the root under another spelling: `@import "x/../a"` in `a` is not literally the file's own spelling, so it is a
+-- circular import reported at the directive (column 0), not at the path token
+def exSelfOther : FS := { files := [(["w", "a"], .idl "@import \"x/../a\"\nta = enum { k; }"), (["w", "x", "y"], .idl "")] }
+#guard visitsChecks cfg0 exSelfOther bi ["w", "a"] && agreeV cfg0 exSelfOther bi ["w", "a"]
+#guard shape (programDiags cfg0 exSelfOther bi ["w", "a"]) == [("circular-import", "/w/a", 1, 0)]
+
+-- a diamond with a violation in the shared file `d`: `d` is entered once, reported once
+def exDiamondV : FS := fsOf [("a", "@import \"b\"\n@import \"c\"\nta = record { x: tb; y: tc; z: td; }"),
+  ("b", "@import \"d\"\ntb = record { x: td; }"), ("c", "@import \"d\"\ntc = record { x: list<td>; }"),
+  ("d", "td = record { q: missing; }")]
+#guard visitsChecks cfg0 exDiamondV bi ["w", "a"] && nodupKeys cfg0 exDiamondV bi ["w", "a"]
+#guard agreeV cfg0 exDiamondV bi ["w", "a"]
+#guard shape (programDiags cfg0 exDiamondV bi ["w", "a"]) == [("unknown-type", "/w/d", 1, 17)]
+#guard ((rootVisits cfg0 exDiamondV ["w", "a"]).filterMap Visit.file?) == [["w", "d"], ["w", "b"], ["w", "c"], ["w", "a"]]
+
+-- `@extern` lines: a valid external type file (its types are known from the line on: `ext1` is unknown in `b`, which
+-- is finished before, known in `a`), an invalid one, an undecodable one, a missing one, an IDL file, and the file itself
+def exExterns : FS := { files := [
+  (["w", "a"], .idl ("@import \"b\"\n@extern \"e.yaml\"\n@extern \"bad.yaml\"\n@extern \"bin.yaml\"\n@extern \"none.yaml\"\n"
+     ++ "@extern \"b\"\n@extern \"/w/a\"\nta = record { x: ext1; y: list<ext2>; }")),
+  (["w", "b"], .idl "tb = record { x: ext1; }"),
+  (["w", "e.yaml"], .ext [{ key := "ext1", prim := .record, arity := 0, pos := default }, { key := "ext2", prim := .record, arity := 0, pos := default }]),
+  (["w", "bad.yaml"], .badExt), (["w", "bin.yaml"], .notText ⟨3, 1, 3, 2⟩)] }
+#guard visitsChecks cfg0 exExterns bi ["w", "a"] && nodupKeys cfg0 exExterns bi ["w", "a"]
+#guard agreeV cfg0 exExterns bi ["w", "a"]
+#guard shape (programDiags cfg0 exExterns bi ["w", "a"])
+  == [("unknown-type", "/w/b", 1, 17), ("bad-extern", "/w/bad.yaml", 0, 0), ("extern-not-utf8", "/w/bin.yaml", 3, 1),
+      ("missing-file", "/w/a", 5, 8), ("bad-extern", "/w/b", 0, 0), ("circular-import", "/w/a", 7, 8)]
+#guard programKeys bi (rootVisits cfg0 exExterns ["w", "a"]) == ["i32", "list", "tb", "ext1", "ext2", "ta"]
+
+-- an imported file that is not UTF-8
+def exUndecodable : FS := { files := [(["w", "a"], .idl "@import \"b\"\n@import \"b\"\nta = enum { k; }"), (["w", "b"], .notText ⟨2, 0, 2, 1⟩)] }
+#guard visitsChecks cfg0 exUndecodable bi ["w", "a"] && agreeV cfg0 exUndecodable bi ["w", "a"]
+#guard shape (programDiags cfg0 exUndecodable bi ["w", "a"]) == [("not-utf8", "/w/b", 2, 0)]
+
+-- a duplicate across files: the hypotheses on the visits hold, the registered names are not pairwise distinct, and the
+-- front end is aborted by a `TypeResolvingException` (`front_duplicate_raised`) — at the second declaration in
+-- registration order, i.e. in the importing file
+def exDupFiles : FS := fsOf [("a", "@import \"b\"\n\nt = enum { k; }"), ("b", "t = enum { k; }")]
+#guard visitsChecks cfg0 exDupFiles bi ["w", "a"] && !nodupKeys cfg0 exDupFiles bi ["w", "a"]
+#guard match front cfg0 exDupFiles bi ["w", "a"] with
+  | .abort (.raised "TypeResolvingException" "/w/a" pos) => pos.sl == 3
+  | _ => false
+-- a duplicate of an external type
+def exDupExt : FS := { files := [(["w", "a"], .idl "@extern \"e.yaml\"\next1 = enum { k; }"),
+  (["w", "e.yaml"], .ext [{ key := "ext1", prim := .record, arity := 0, pos := default }])] }
+#guard visitsChecks cfg0 exDupExt bi ["w", "a"] && !nodupKeys cfg0 exDupExt bi ["w", "a"]
+#guard match front cfg0 exDupExt bi ["w", "a"] with | .abort (.raised "TypeResolvingException" "/w/a" _) => true | _ => false
+
+-- the hypothesis on the visits is needed: an imported file outside the grammar is a `broken` visit; the model aborts
+def exBroken : FS := fsOf [("a", "@import \"b\"\nta = enum { k; }"), ("b", "this is not idl {")]
+#guard !visitsChecks cfg0 exBroken bi ["w", "a"]
+#guard (diagsOf (front cfg0 exBroken bi ["w", "a"])).isNone
+
+-- the examples of `Props/C05Program.lean` (clean import graphs): `programDiags` is `violationsOrdered` there
+#guard visitsChecks cfg0 ex3 bi ["w", "a"] && agreeV cfg0 ex3 bi ["w", "a"]
+#guard some (programDiags cfg0 ex3 bi ["w", "a"]) == specOf cfg0 ex3 bi ["w", "a"]
+
+end C16ProgramExamples
 
 end Pydjinni.Front
